@@ -106,6 +106,10 @@ Section Lift.
 Variable ctor_ok : ctor -> list expr -> bool.    (* PartialEval evaluated the call (literal arguments) to a Context *)
 Variable ctor_ok_c : ctor -> list expr -> bool.  (* ... the call with computed arguments, as the header of a `with` *)
 Variable allow_computed : bool.                  (* the code: true; the proved fragment: false *)
+(* the proposed repair fixes/C09-lift-context-value.diff: the prelude binds the Context the
+   expression was statically evaluated to (`sval`) instead of the expression *)
+Variable fix_val : bool.
+Variable sval : expr -> option ctx.
 
 Definition liftable (hdr : bool) (e : expr) : bool :=
   match e with
@@ -124,14 +128,29 @@ Definition lift_pos (hdr : bool) (e : expr) (st : ist) : option (expr * ist * li
     end
   else if has_ctor e then None else Some (e, st, []).
 
+(* an assignment right-hand side when the ambient context is not statically known (PartialEval
+   does not evaluate it): a constructor call stays where it is *)
+Definition keep_pos (e : expr) (st : ist) : option (expr * ist * list (ident * expr)) :=
+  match e with
+  | ECtor _ args => if existsb has_ctor args then None else Some (e, st, [])
+  | _ => if has_ctor e then None else Some (e, st, [])
+  end.
+
+(* the body of `with e:` runs under a statically known context *)
+Definition static_hdr (e : expr) : bool :=
+  liftable true e || match e with ECtxVal _ => true | _ => false end.
+
 (* an expression in any other position *)
 Definition lift_other (e : expr) : bool := negb (has_ctor e).
 
-Fixpoint lift_stmt (s : stmt) (st : ist) {struct s} : option (stmt * ist * list (ident * expr)) :=
-  let lb := lb_gen lift_stmt in
+(* amb: the ambient context is statically known at this statement (the function declares one, or
+   the enclosing `with` headers are static) *)
+Fixpoint lift_stmt (amb : bool) (s : stmt) (st : ist) {struct s} : option (stmt * ist * list (ident * expr)) :=
+  let lb := lb_gen (lift_stmt amb) in
   match s with
   | SAssign p e =>
-      match lift_pos false e st with None => None | Some (e', st1, b1) => Some (SAssign p e', st1, b1) end
+      match (if amb then lift_pos false e st else keep_pos e st) with
+      | None => None | Some (e', st1, b1) => Some (SAssign p e', st1, b1) end
   | SIndexAssign x idx e =>
       if forallb lift_other idx && lift_other e then Some (s, st, []) else None
   | SIf1 c body =>
@@ -153,15 +172,19 @@ Fixpoint lift_stmt (s : stmt) (st : ist) {struct s} : option (stmt * ist * list 
       else None
   | SContext x e body =>
       match lift_pos true e st with None => None | Some (e', st1, l1) =>
-      match lb body st1 with None => None | Some (body', st2, l2) => Some (SContext x e' body', st2, l1 ++ l2) end end
+      match lb_gen (lift_stmt (static_hdr e)) body st1 with None => None
+      | Some (body', st2, l2) => Some (SContext x e' body', st2, l1 ++ l2) end end
   | SAssert e | SEffect e | SReturn e => if lift_other e then Some (s, st, []) else None
   | SPass => Some (s, st, [])
   end.
 
-Definition lift_block := lb_gen lift_stmt.
+Definition lift_block (amb : bool) := lb_gen (lift_stmt amb).
+
+Definition bound_expr (e : expr) : expr :=
+  if fix_val then match sval e with Some c => ECtxVal c | None => e end else e.
 
 Definition lift_prelude (bs : list (ident * expr)) : block :=
-  map (fun xe => SAssign (PVar (fst xe)) (snd xe)) bs.
+  map (fun xe => SAssign (PVar (fst xe)) (bound_expr (snd xe))) bs.
 
 Fixpoint nodupb (l : list ident) : bool :=
   match l with
@@ -171,7 +194,7 @@ Fixpoint nodupb (l : list ident) : bool :=
 
 Definition lift_fn (fn : func) : option func :=
   let V := func_names fn in
-  match lift_block (f_body fn) (ist0 fn) with
+  match lift_block (match f_ctx fn with Some _ => true | None => false end) (f_body fn) (ist0 fn) with
   | None => None
   | Some (body', _, bs) =>
       (* the generated names are fresh and distinct, the bound expressions are the lifted ones
@@ -204,8 +227,17 @@ Definition ctor_ok_real (N : numops) (k : ctor) (args : list expr) : bool :=
   | _ => false
   end.
 
-(* lift_context as coded / restricted to constructor calls with literal arguments *)
-Definition lift_ctx (N : numops) (fn : func) : option func :=
-  lift_fn (ctor_ok_N N) (ctor_ok_real N) true fn.
-Definition lift_ctx_lit (N : numops) (fn : func) : option func :=
-  lift_fn (ctor_ok_N N) (ctor_ok_real N) false fn.
+(* what PartialEval computes for a lifted expression *)
+Definition static_val (N : numops) (e : expr) : option ctx :=
+  match static_ctx N e with
+  | Some c => Some c
+  | None => match eval N [] 64 [] [] CReal e with ROk (VCtx c, _) => Some c | _ => None end
+  end.
+
+(* lift_context; fx: with the proposed repair.  As coded / restricted to literal arguments *)
+Definition lift_ctx_x (N : numops) (fx : bool) (fn : func) : option func :=
+  lift_fn (ctor_ok_N N) (ctor_ok_real N) true fx (static_val N) fn.
+Definition lift_ctx_lit_x (N : numops) (fx : bool) (fn : func) : option func :=
+  lift_fn (ctor_ok_N N) (ctor_ok_real N) false fx (static_val N) fn.
+Definition lift_ctx (N : numops) := lift_ctx_x N false.
+Definition lift_ctx_lit (N : numops) := lift_ctx_lit_x N false.
